@@ -22,6 +22,10 @@ rule("C16.i", "a wrapper clips the window of a wrapped asset by intersection: st
      props=["C16", "C08", "C02"])
 rule("C08.h", "the intersection of the wrapper's window with the window of a wrapped asset covers the case that the wrapped asset has no "
               "bound of its own (None): the wrapper's bound applies", floor=2, props=["C08", "C16"])
+rule("C16.o", "the window of an asset's restricted grid is a function of the asset's own attributes: Asset.set_timegrid hands self.start / self.end / "
+              "self.freq to set_restricted_grid. Every set-up begins by re-establishing the grid through self.set_timegrid(timegrid): a window that "
+              "comes in as an argument (a wrapper's clipped life time) instead of being kept on the asset is gone by the time the asset is set up",
+     floor=1, props=["C16", "C08", "C10"])
 rule("C08.i", "an optional bound (start / end and other attributes kept from a constructor parameter that defaults to None) that is an operand "
               "of max() / min() or of an ordering comparison is covered by a None test of that very operand (a guard that tests another "
               "attribute - self.start for self.end - clips under the wrong condition or not at all)", floor=4, props=["C08", "C16"])
@@ -112,9 +116,39 @@ rule("C08.l", "block-wise reduction (`ufunc.reduceat(values, starts)`): the last
      props=["C08", "C02", "C13"])
 
 
-@analysis("windows", ["C16.i", "C08.h", "C07.u", "C15.i", "C15.j", "C08.i", "C07.z", "C15.l", "C08.l"])
+@analysis("windows", ["C16.i", "C08.h", "C07.u", "C15.i", "C15.j", "C08.i", "C07.z", "C15.l", "C08.l", "C16.o"])
 def run(ctx):
     p = ctx.p
+    # ================================================================= C16.o the window of the restricted grid comes from the asset's attributes
+    stg = p.fn_opt("Asset.set_timegrid")
+    if stg is None:
+        ctx.ob("C16.o", "Asset", "set_timegrid", None, "Asset.set_timegrid not found")
+    else:
+        calls = [(st, c) for st in au.walk_stmts(stg.body) for c in au.walk_own(st) if isinstance(c, ast.Call) and au.method_name(c) == "set_restricted_grid"]
+        if not calls:
+            ctx.ob("C16.o", stg, "set_restricted_grid", None, "no call of set_restricted_grid in Asset.set_timegrid")
+        for st, c in calls:
+            bad = []
+            for pos, kw in ((0, "start"), (1, "end"), (2, "freq")):
+                a = au.arg_or_kw(c, pos, kw)
+                if a is None:
+                    continue
+                r = ctx.resolve(stg, a, st)
+                if au.path(r) != "self." + kw and au.path(a) != "self." + kw:
+                    # a local: does a parameter of set_timegrid (other than the grid) flow into it?
+                    names = au.names_in(r) | au.names_in(a)
+                    for nm in list(names):
+                        for d in ctx.flow(stg).defs(nm, st):
+                            if d.value is not None:
+                                names |= au.names_in(d.value)
+                    pars = {q.name for q in stg.params if q.name not in ("self", "timegrid")}
+                    bad.append((kw, a, sorted(names & pars)))
+            ctx.ob("C16.o", stg, au.short(c, 80), not bad if not bad or any(b[2] for b in bad) else None,
+                   "the %s of the restricted grid is %s, not self.%s%s: set-ups re-establish the grid with self.set_timegrid(timegrid) as their first "
+                   "step, so a window given here by a caller (a structured asset clipping the life time of an inner asset) lasts only until the inner "
+                   "asset is set up - the inner assets stay active outside the wrapper's life time (value 8770 instead of 4867)" % (
+                       bad[0][0], au.short(bad[0][1], 30), bad[0][0], (" (it depends on the parameter %s)" % ", ".join(bad[0][2])) if bad[0][2] else "") if bad else "",
+                   node=c, ok_detail="self.start, self.end, self.freq")
     # ================================================================= C16.i / C08.h
     n_i = 0
     for fn in sorted(p.all_functions(), key=lambda f: f.qualname):
